@@ -13,6 +13,7 @@ import (
 	"fmt"
 	"io"
 	"strconv"
+	"strings"
 	"sync"
 
 	"github.com/dsnet/compress/brotli"
@@ -45,13 +46,30 @@ func ccJobs(r *Rand, n int) []ccJob {
 		}
 		return d
 	}
+	words := strings.Fields("the of and to in is that for it was as with be by on not he this are or his from at which but have an had they you were their one all we can her has there been if more when will would who so no time some could them only other new two may then do first any my now such like our over man me even most made after also did many before must through back years where much your way well down should because each just those people how too little state good very make world still own see men work long get here between both life being under never day same another know while last might us great old year off come since against go came right used take three")
 	for i := 0; i < n; i++ {
 		d := mk(i)
+		if i%3 == 1 { // English-like text: brotli quality 9+ then refers to the static dictionary
+			var b []byte
+			for len(b) < 9000+r.Intn(4000) {
+				w := words[r.Intn(len(words))]
+				if r.Intn(6) == 0 {
+					w = strings.ToUpper(w[:1]) + w[1:]
+				}
+				b = append(b, w...)
+				b = append(b, []string{" ", ", ", ". ", "\n"}[r.Intn(4)]...)
+			}
+			d = b
+		}
 		var fl, br, bz bytes.Buffer
 		fw, _ := stdflate.NewWriter(&fl, 1+i%9)
 		fw.Write(d)
 		fw.Close()
-		bw := cbrotli.NewWriter(&br, i%12)
+		bq := i % 12
+		if i%3 == 1 {
+			bq = 9 + i%3
+		}
+		bw := cbrotli.NewWriter(&br, bq)
 		bw.Write(d)
 		bw.Close()
 		zw, _ := bzip2.NewWriter(&bz, &bzip2.WriterConfig{Level: 1 + i%9})
